@@ -150,6 +150,16 @@ def typeof(x):
     return type(x)
 
 
+def now(x):
+    """The object denoted by x, read in the current state (x may have been reached through `old`)."""
+    return getattr(x, 'orig__', x)
+
+
+def was(old, x):
+    """The object x as it was before the call (attribute snapshot)."""
+    return getattr(old, 'snaps__', {}).get(id(getattr(x, 'orig__', x)), x)
+
+
 def same_obj(x, y):
     """x and y are the same container object, where y may be a snapshot copy carrying its origin's identity."""
     return getattr(x, 'orig_id__', id(x)) == getattr(y, 'orig_id__', id(y))
@@ -193,5 +203,5 @@ class Old:
 
 
 NATIVE_HELPERS = dict(implies=implies, iff=iff, index_of=index_of, order_of=order_of, key_at=key_at,
-                      is_fresh=is_fresh, same_elems=same_elems, same_dict=same_dict, typeof=typeof, same=same, same_obj=same_obj,
+                      is_fresh=is_fresh, same_elems=same_elems, same_dict=same_dict, typeof=typeof, same=same, same_obj=same_obj, now=now, was=was,
                       is_none=is_none)
